@@ -65,10 +65,6 @@ def parseC1 (line : String) : Option C1 :=
 
 def isFloatPt (pt : String) : Bool := pt == "g32f"
 
-/-- the known finding: the column variants build `transposed_view` of the views, whose `xy_at(0,0)` asserts
-    `x < width()` on a view of width 0 (assert-enabled builds) -/
-def c1Asserts (o : C1) : Bool := isCols o.fn && o.w == 0
-
 def runC1 {α : Type} [Add α] [Mul α] [OfNat α 0] (o : C1) (inj : Int → α) (out : α → Int) : List (List (List Int)) :=
   let cols := isCols o.fn
   let P := o.ks - 1
@@ -86,8 +82,7 @@ def runC1 {α : Type} [Add α] [Mul α] [OfNat α 0] (o : C1) (inj : Int → α)
     r.map (·.map out)
 
 def modelC1 (o : C1) : String :=
-  if c1Asserts o then "assert:x<width()"
-  else if isFloatPt o.pt then showPlanes o.w o.h (runC1 o f32 bitsOf)
+  if isFloatPt o.pt then showPlanes o.w o.h (runC1 o f32 bitsOf)
   else showPlanes o.w o.h (runC1 (α := Int) o id id)
 
 /-- Spec of the 1-D operations for one plane (exact integers) -/
@@ -212,10 +207,8 @@ def c2Src (o : C2) (ch : Nat) : Int → Int → Int :=
   fun x y => arrFn a (y * (o.w : Int) + x)
 
 def modelC2 (o : C2) : String :=
-  -- known finding: nth_channel_view evaluates src(0,0) (operator() asserts on an empty view)
-  if o.w == 0 then "assert:0<=x&&x<width()"
-  else if o.h == 0 then "assert:0<=y&&y<height()"
-  else showPlanes o.w o.h ((List.range o.planes.length).map fun (ch : Nat) => convolve2d (c2Src o ch) o.w o.h o.ker o.ks o.cy o.cx)
+  -- (empty views: convolve_2d returns before nth_channel_view since the fix ffc09f2)
+  showPlanes o.w o.h ((List.range o.planes.length).map fun (ch : Nat) => convolve2d (c2Src o ch) o.w o.h o.ker o.ks o.cy o.cx)
 
 def judgeC2 (o : C2) (obs : String) : String :=
   if obs.startsWith "assert:" then
